@@ -66,6 +66,12 @@ def behaviours_from_sim(ctx, files):
                 r = st['res']
                 s['exists'] = r['ok']
                 s['want'] = r.get('data', '')
+            if last['op'] == 'copy':
+                s['b'] = bm[last['b']]
+                s['name'] = conc_name(last['name'], v)
+                s['sb'] = bm[last['src']['b']]
+                s['sname'] = conc_name(last['src']['name'], v)
+                s['exists'] = st['res']['ok']
             if last['op'] == 'list':
                 s['b'] = bm[last['b']]
                 s['prefix'] = conc_str(last['prefix'], v)
@@ -84,6 +90,8 @@ def run(ctx):
         'name sets in which one name is a proper path prefix of another (a and a/b) are outside the property for a file-system backend: '
         'the generators never write or read a name that conflicts with a stored one (observation, not reported: reading "a" while "a/b" is '
         'stored yields an is-a-directory read error instead of not-exist)',
+        'Copy(dst, src) is exercised between objects of the same bucket and of two FS buckets below one root, with stored and absent sources and '
+        'existing destinations; copying an object onto itself is not generated; for an absent source only "an error and no effect" is required',
         'listing order is not part of the property: results are compared as sets, duplicates are reported',
         'an object is written in one of three ways: Write calls (two halves; two empty Writes for empty data), NewWriter+Close with no Write call '
         '(empty data only), storage.Copy from a source object in another FS bucket; the result must be the same',
@@ -93,7 +101,7 @@ def run(ctx):
     gu.inject_files(ctx, 'godev/internal/verifh/c18', ['c18_test.go'])
 
     # ---- 1. the specification itself: exhaustive runs ------------------------
-    cfgs = ['StorageBfs.cfg'] + (['StorageBfs1.cfg', 'StorageBfsThorough.cfg'] if ctx.thorough() else [])
+    cfgs = ['StorageBfs.cfg', 'StorageBfsCopy.cfg'] + (['StorageBfs1.cfg', 'StorageBfsThorough.cfg'] if ctx.thorough() else [])
     for cfg in cfgs:
         r = ctx.tlc('StorageMC', cfg=cfg, label=cfg[:-4], timeout=3000)
         if not r.ok:
@@ -164,12 +172,12 @@ def run(ctx):
     ctx.cov['observations_validated'] = summ['ops']
     ctx.cov['evaluations'] += summ['ops']
     first = [o for o in obs if o['op'] != 'reset'][:3]
-    ctx.sample({'kind': 'observed-history-prefix', 'ops': [{k: o.get(k) for k in ('op', 'b', 'text', 'data', 'style', 'exists') if k in o} for o in first]})
+    ctx.sample({'kind': 'observed-history-prefix', 'ops': [{k: o.get(k) for k in ('op', 'b', 'text', 'data', 'style', 'exists', 'ok') if k in o} for o in first]})
 
     # ---- 4. names built by the services resolve inside their bucket ----------
     service_names(ctx)
 
-    ctx.cov['rule'] = ('behaviours = TLC -simulate walks of Storage.tla (2 buckets, all 39 names of depth <= 3 over {a,b,ab}, 4 data values, every '
+    ctx.cov['rule'] = ('behaviours = TLC -simulate walks of Storage.tla (write / read / list / copy; 2 buckets, all 39 names of depth <= 3 over {a,b,ab}, 4 data values, every '
                        'string prefix) concretized by 6 name alphabets, every step and the file tree compared; observations = random histories on '
                        'random ordinary names recorded from FSBucket and validated by TLC (StorageTrace); distinct = behaviours + histories + '
                        'service requests')
